@@ -437,3 +437,10 @@ func (ex *Exec) collectStorageDeep(v Value, s *storageSet, depth int) {
 		}
 	}
 }
+
+func init() {
+	intrinsics["vObserve"] = func(ex *Exec, fr *frame, args []Value) Value {
+		ex.X.obs = append(ex.X.obs, obsRec{concreteName(ex, args[0]), args[1].(*Str)})
+		return nil
+	}
+}
